@@ -396,3 +396,39 @@ fn push_returner_result_contract() {
     kani::cover!(which == 2 && pre_err == 1);
     core::mem::forget(nb);
 }
+
+macro_rules! each_deconstruct_only {
+    ($name:ident, $n:expr) => {
+        /// Clause for Each, deconstruct only (the stub's pattern list is built directly, so larger stubs are affordable):
+        /// the patterns reach the sink in DECLARATION order, each exactly once (C01, C14).
+        #[kani::proof]
+        #[kani::unwind(8)]
+        fn $name() {
+            const N: usize = $n;
+            let mut patterns: Vec<DynCallPatternBuilder> = Vec::with_capacity(N);
+            let mut i = 0;
+            while i < N {
+                let mut b = DynCallPatternBuilder::new(PatternMatchMode::InAnyOrder, ph::mk_matcher(None));
+                b.current_response_index = 100 + i; // identity tag
+                patterns.push(b);
+                i += 1;
+            }
+            let each: Each<F8> = Each { patterns, mock_fn: PhantomData };
+            let mut sink = OrderSink([0; 4], 0);
+            let r = each.deconstruct(&mut sink);
+            assert!(r.is_ok());
+            assert!(sink.1 == N);
+            let mut j = 0;
+            while j < N {
+                assert!(sink.0[j] == 100 + j);
+                j += 1;
+            }
+            kani::cover!(true);
+            core::mem::forget(r);
+        }
+    };
+}
+//@K props=C01,C14 tier=quick label=bnd feat=std fn=<EachasClause>::deconstruct bound=patterns=3
+each_deconstruct_only!(each_deconstruct_n3, 3);
+//@K props=C01,C14 tier=thorough label=bnd feat=std fn=<EachasClause>::deconstruct bound=patterns=4
+each_deconstruct_only!(each_deconstruct_n4, 4);
